@@ -92,6 +92,11 @@ func DefaultConfig() ExtractorConfig {
 //	// prefixes = ["hello", "world"]
 type Extractor struct {
 	config ExtractorConfig
+
+	// dropped is set during one Extract* call when a limit made the extractor
+	// discard literals (as opposed to shortening them): the result then no
+	// longer covers every match and must not be presented as if it did.
+	dropped bool
 }
 
 // New creates a new Extractor with the given configuration.
@@ -126,7 +131,12 @@ func New(config ExtractorConfig) *Extractor {
 //
 // Returns empty Seq if no prefix literals can be extracted.
 func (e *Extractor) ExtractPrefixes(re *syntax.Regexp) *Seq {
+	e.dropped = false
 	seq := e.extractPrefixes(re, 0)
+	if e.dropped && seq != nil {
+		// Some literals were discarded on the way: partial coverage.
+		seq.partialCoverage = true
+	}
 	// Optimize for prefilter: if >64 literals (exceeds FatTeddy capacity),
 	// try cascading prefix trim + dedup to fit Teddy.
 	// Inspired by Rust's optimize_for_prefix_by_preference ATTEMPTS table.
@@ -259,6 +269,7 @@ func (e *Extractor) extractPrefixesAlternate(re *syntax.Regexp, depth int) *Seq 
 			allLits = append(allLits, seq.Get(i))
 			if len(allLits) > crossLimit {
 				overflowed = true
+				e.dropped = true // the remaining literals and branches are skipped
 				break
 			}
 		}
@@ -282,6 +293,7 @@ func (e *Extractor) extractPrefixesAlternate(re *syntax.Regexp, depth int) *Seq 
 		result.Dedup()
 		if result.Len() > e.config.MaxLiterals {
 			result.literals = result.literals[:e.config.MaxLiterals]
+			e.dropped = true
 		}
 		// Mark partial coverage when overflow truncated branches.
 		// Prefilter with partial coverage CANNOT be used in candidate loops
@@ -339,8 +351,10 @@ func (e *Extractor) extractPrefixesConcat(re *syntax.Regexp, depth int) *Seq {
 		sub := re.Sub[i]
 		contribution := e.concatSubContribution(sub, depth)
 
-		if contribution == nil {
-			// Non-expandable sub-expression (wildcard, repetition, etc.)
+		if contribution == nil || contribution.IsEmpty() {
+			// Non-expandable sub-expression (wildcard, repetition, etc.), or one
+			// whose literals the limits reduced to nothing: it consumes input
+			// that is not represented, so the prefixes end here.
 			// Mark all accumulated literals as inexact and stop.
 			e.markAllInexact(acc)
 			break
@@ -481,6 +495,7 @@ func (e *Extractor) expandAlternateContribution(alt *syntax.Regexp, depth int) *
 		result.Dedup()
 		if result.Len() > e.config.MaxLiterals {
 			result.literals = result.literals[:e.config.MaxLiterals]
+			e.dropped = true
 		}
 	}
 
@@ -553,6 +568,7 @@ func (e *Extractor) handleCrossProductOverflow(s *Seq) *Seq {
 	// If still over MaxLiterals after dedup, truncate the list
 	if s.Len() > e.config.MaxLiterals {
 		s.literals = s.literals[:e.config.MaxLiterals]
+		e.dropped = true
 	}
 	return s
 }
@@ -572,7 +588,14 @@ func (e *Extractor) handleCrossProductOverflow(s *Seq) *Seq {
 //
 // Returns empty Seq if no suffix literals can be extracted.
 func (e *Extractor) ExtractSuffixes(re *syntax.Regexp) *Seq {
-	return e.extractSuffixes(re, 0)
+	e.dropped = false
+	seq := e.extractSuffixes(re, 0)
+	if e.dropped {
+		// A set from which literals were discarded is not a necessary
+		// condition for a match any more: no information.
+		return NewSeq()
+	}
+	return seq
 }
 
 // extractSuffixes is the internal recursive implementation for suffix extraction.
@@ -588,7 +611,7 @@ func (e *Extractor) extractSuffixes(re *syntax.Regexp, depth int) *Seq {
 	case syntax.OpLiteral:
 		// Case-insensitive literal: expand case-folding variants
 		if re.Flags&syntax.FoldCase != 0 {
-			return e.expandCaseFoldLiteral(re.Rune)
+			return e.expandCaseFoldLiteralSuffix(re.Rune)
 		}
 		// Direct literal
 		bytes := runeSliceToBytes(re.Rune)
@@ -643,8 +666,9 @@ func (e *Extractor) extractSuffixes(re *syntax.Regexp, depth int) *Seq {
 				continue
 			}
 
-			// Can only extend with literal sub-expressions
-			if sub.Op != syntax.OpLiteral {
+			// Can only extend with (case-sensitive) literal sub-expressions; a
+			// case-insensitive literal stands for several byte strings.
+			if sub.Op != syntax.OpLiteral || sub.Flags&syntax.FoldCase != 0 {
 				// Non-literal encountered: mark all suffixes as incomplete and stop
 				lits := make([]Literal, suffixes.Len())
 				for j := 0; j < suffixes.Len(); j++ {
@@ -659,6 +683,12 @@ func (e *Extractor) extractSuffixes(re *syntax.Regexp, depth int) *Seq {
 			lits := make([]Literal, suffixes.Len())
 			for j := 0; j < suffixes.Len(); j++ {
 				lit := suffixes.Get(j)
+				if !lit.Complete {
+					// Only the tail of what follows is known (something
+					// unknown or cut off precedes it): nothing can be glued on.
+					lits[j] = lit
+					continue
+				}
 				// Create new byte slice: prefix + suffix
 				newBytes := make([]byte, len(prefix)+len(lit.Bytes))
 				copy(newBytes, prefix)
@@ -695,6 +725,8 @@ func (e *Extractor) extractSuffixes(re *syntax.Regexp, depth int) *Seq {
 			for i := 0; i < seq.Len(); i++ {
 				allLits = append(allLits, seq.Get(i))
 				if len(allLits) >= e.config.MaxLiterals {
+					// (whatever follows is discarded)
+					e.dropped = true
 					return NewSeq(allLits...)
 				}
 			}
@@ -702,8 +734,9 @@ func (e *Extractor) extractSuffixes(re *syntax.Regexp, depth int) *Seq {
 		return NewSeq(allLits...)
 
 	case syntax.OpCharClass:
-		// Character class expansion
-		return e.expandCharClass(re)
+		// Character class expansion (a member cut to MaxLiteralLen keeps its
+		// last bytes: the match ends with them)
+		return e.expandCharClassSeq(re, true)
 
 	case syntax.OpCapture:
 		// Ignore capture, extract from content
@@ -744,7 +777,12 @@ func (e *Extractor) extractSuffixes(re *syntax.Regexp, depth int) *Seq {
 //
 // Returns empty Seq if no inner literals can be extracted.
 func (e *Extractor) ExtractInner(re *syntax.Regexp) *Seq {
-	return e.extractInner(re, 0)
+	e.dropped = false
+	seq := e.extractInner(re, 0)
+	if e.dropped {
+		return NewSeq() // literals were discarded: no information
+	}
+	return seq
 }
 
 // extractInner is the internal recursive implementation for inner literal extraction.
@@ -795,6 +833,8 @@ func (e *Extractor) extractInner(re *syntax.Regexp, depth int) *Seq {
 			for i := 0; i < seq.Len(); i++ {
 				allLits = append(allLits, seq.Get(i))
 				if len(allLits) >= e.config.MaxLiterals {
+					// (whatever follows is discarded)
+					e.dropped = true
 					return NewSeq(allLits...)
 				}
 			}
@@ -843,8 +883,27 @@ func (e *Extractor) extractInner(re *syntax.Regexp, depth int) *Seq {
 // All returned literals are marked as Complete=true because the expanded set covers
 // all possible case foldings — case-sensitive prefilter matching is correct.
 func (e *Extractor) expandCaseFoldLiteral(runes []rune) *Seq {
+	return e.expandCaseFold(runes, false)
+}
+
+// expandCaseFoldLiteralSuffix is expandCaseFoldLiteral for suffix extraction:
+// when limits force trimming, the END of the literal is kept (every match ends
+// with one of the variants), not its beginning.
+func (e *Extractor) expandCaseFoldLiteralSuffix(runes []rune) *Seq {
+	return e.expandCaseFold(runes, true)
+}
+
+func (e *Extractor) expandCaseFold(runes []rune, tail bool) *Seq {
 	if len(runes) == 0 {
 		return NewSeq()
+	}
+	if tail {
+		// Work on the reversed literal; variants are turned back when emitted.
+		rev := make([]rune, len(runes))
+		for i, r := range runes {
+			rev[len(runes)-1-i] = r
+		}
+		runes = rev
 	}
 
 	// Resolve CrossProductLimit: use default if not set
@@ -871,7 +930,7 @@ func (e *Extractor) expandCaseFoldLiteral(runes []rune) *Seq {
 	// If cross-product fits within limits, generate all variants.
 	// Use filledCount (not len(runes)) — early exit may leave trailing nil entries.
 	if totalProduct <= e.config.MaxLiterals && filledCount == len(runes) {
-		return e.generateCaseFoldVariants(foldSets, filledCount)
+		return e.generateCaseFoldVariants(foldSets, filledCount, tail)
 	}
 
 	// Cross-product too large: trim to shorter prefix and deduplicate.
@@ -882,7 +941,7 @@ func (e *Extractor) expandCaseFoldLiteral(runes []rune) *Seq {
 		return NewSeq()
 	}
 
-	result := e.generateCaseFoldVariants(foldSets[:trimLen], trimLen)
+	result := e.generateCaseFoldVariants(foldSets[:trimLen], trimLen, tail)
 	// Trimmed variants are incomplete (don't cover the full literal)
 	for i := range result.literals {
 		result.literals[i].Complete = false
@@ -890,12 +949,13 @@ func (e *Extractor) expandCaseFoldLiteral(runes []rune) *Seq {
 	result.Dedup()
 	if result.Len() > e.config.MaxLiterals {
 		result.literals = result.literals[:e.config.MaxLiterals]
+		e.dropped = true
 	}
 	return result
 }
 
 // generateCaseFoldVariants generates cross-product of fold sets up to prefixLen runes.
-func (e *Extractor) generateCaseFoldVariants(foldSets [][]rune, prefixLen int) *Seq {
+func (e *Extractor) generateCaseFoldVariants(foldSets [][]rune, prefixLen int, tail bool) *Seq {
 	// Start with one empty literal
 	variants := [][]rune{{}}
 
@@ -914,10 +974,19 @@ func (e *Extractor) generateCaseFoldVariants(foldSets [][]rune, prefixLen int) *
 
 	lits := make([]Literal, 0, len(variants))
 	for _, v := range variants {
+		if tail {
+			for i, j := 0, len(v)-1; i < j; i, j = i+1, j-1 {
+				v[i], v[j] = v[j], v[i]
+			}
+		}
 		b := runeSliceToBytes(v)
 		complete := true
 		if len(b) > e.config.MaxLiteralLen {
-			b = b[:e.config.MaxLiteralLen]
+			if tail {
+				b = b[len(b)-e.config.MaxLiteralLen:]
+			} else {
+				b = b[:e.config.MaxLiteralLen]
+			}
 			complete = false
 		}
 		lits = append(lits, NewLiteral(b, complete))
@@ -970,6 +1039,12 @@ func caseFolds(r rune) []rune {
 //   - Not a character class
 //   - Class size exceeds MaxClassSize
 func (e *Extractor) expandCharClass(re *syntax.Regexp) *Seq {
+	return e.expandCharClassSeq(re, false)
+}
+
+// expandCharClassSeq expands a small character class; tail selects which end
+// of a member survives truncation to MaxLiteralLen (the end for suffixes).
+func (e *Extractor) expandCharClassSeq(re *syntax.Regexp, tail bool) *Seq {
 	if re.Op != syntax.OpCharClass {
 		return NewSeq()
 	}
@@ -995,13 +1070,18 @@ func (e *Extractor) expandCharClass(re *syntax.Regexp) *Seq {
 			// Truncate if exceeds MaxLiteralLen
 			complete := true
 			if len(bytes) > e.config.MaxLiteralLen {
-				bytes = bytes[:e.config.MaxLiteralLen]
+				if tail {
+					bytes = bytes[len(bytes)-e.config.MaxLiteralLen:]
+				} else {
+					bytes = bytes[:e.config.MaxLiteralLen]
+				}
 				complete = false
 			}
 			lits = append(lits, NewLiteral(bytes, complete))
 
 			// Respect MaxLiterals limit
 			if len(lits) >= e.config.MaxLiterals {
+				e.dropped = true // the remaining class members are discarded
 				return NewSeq(lits...)
 			}
 		}
@@ -1084,8 +1164,9 @@ func (e *Extractor) ExtractInnerForReverseSearch(re *syntax.Regexp) *InnerLitera
 	//  4. Has wildcards after it
 	for i := 1; i < len(re.Sub)-1; i++ {
 		// Check if this sub-expression has extractable literals
+		e.dropped = false
 		literals := e.extractInner(re.Sub[i], 0)
-		if literals.IsEmpty() {
+		if literals.IsEmpty() || e.dropped {
 			continue
 		}
 
